@@ -105,6 +105,10 @@ class GenericContextProvider(RoleProvider):
                         # set version and time in new state
                         proposed_st.BindingMdibVersion = mgr.new_mdib_version
                         proposed_st.BindingStartTime = time.time()
+                        # binding data is maintained by the provider: unbinding data that came with the proposal
+                        # (e.g. a copy of an old state) would survive the later end of this association
+                        proposed_st.UnbindingMdibVersion = None
+                        proposed_st.BindingEndTime = None
                     self._logger.info(
                         'new %s, DescriptorHandle=%s Handle=%s',
                         proposed_st.NODETYPE.localname,
@@ -127,6 +131,12 @@ class GenericContextProvider(RoleProvider):
                         old_state_container.BindingEndTime = time.time()
                         # an association that ends is 'Dis', whatever non-associated value was proposed
                         # (an absent ContextAssociation attribute implies 'No'): there is no way back to 'No' or 'Pre'
+                        proposed_st.ContextAssociation = pm_types.ContextAssociation.DISASSOCIATED
+                    elif (
+                        old_state_container.ContextAssociation == pm_types.ContextAssociation.DISASSOCIATED
+                        and proposed_st.ContextAssociation != pm_types.ContextAssociation.ASSOCIATED
+                    ):
+                        # already disassociated (earlier, or by another proposal of this request): it stays 'Dis'
                         proposed_st.ContextAssociation = pm_types.ContextAssociation.DISASSOCIATED
                     elif (
                         old_state_container.ContextAssociation != pm_types.ContextAssociation.ASSOCIATED
